@@ -2,6 +2,7 @@ package simcheck
 
 import (
 	"fmt"
+	"reflect"
 	"time"
 
 	"github.com/anishathalye/porcupine"
@@ -42,12 +43,13 @@ type c13In struct {
 	Callers int      `json:"callers"` // shape 2
 	OnChild bool     `json:"on_child"`
 	Chain   *c13Chain `json:"chain,omitempty"` // shape 3
+	KeyKind int       `json:"key_kind,omitempty"` // 0 named int, 1 pointer, 2 struct, 3 string
 }
 
 const c13Keys = 2
 
 func c13Gen(r *Rand, tier string) interface{} {
-	in := &c13In{}
+	in := &c13In{KeyKind: r.Pick(0, 0, 1, 2, 3)}
 	val := 100
 	next := func() int { val++; return val }
 	switch r.Intn(6) {
@@ -118,6 +120,33 @@ func c13Gen(r *Rand, tier string) interface{} {
 
 type c13Key int
 
+// key kinds: a data scope key is any comparable value; the harness varies its type per run
+type c13StructKey struct {
+	A int
+	B string
+}
+
+var c13PtrKeys = [8]*int{new(int), new(int), new(int), new(int), new(int), new(int), new(int), new(int)}
+var c13KeyKind int // set at the start of every run from the input
+
+func init() {
+	for i, p := range c13PtrKeys {
+		simrt.PtrRank[reflect.ValueOf(p).Pointer()] = i
+	}
+}
+
+func c13K(k int) interface{} {
+	switch c13KeyKind {
+	case 1:
+		return c13PtrKeys[k%len(c13PtrKeys)] // a pointer
+	case 2:
+		return c13StructKey{k, "k"}
+	case 3:
+		return fmt.Sprintf("key%d", k)
+	}
+	return c13Key(k)
+}
+
 // history element for porcupine
 type c13HistIn struct {
 	Steps []c13Step
@@ -170,14 +199,14 @@ func c13Exec(ds app.DataScope, steps []c13Step) (reads []int) {
 	for _, s := range steps {
 		switch s.Kind {
 		case "r":
-			reads = append(reads, c13Val(ds.Value(c13Key(s.Key))))
+			reads = append(reads, c13Val(ds.Value(c13K(s.Key))))
 		case "w":
-			ds.SetValue(c13Key(s.Key), s.Val)
+			ds.SetValue(c13K(s.Key), s.Val)
 		case "i":
-			v := c13Val(ds.Value(c13Key(s.Key)))
+			v := c13Val(ds.Value(c13K(s.Key)))
 			reads = append(reads, v)
 			simrt.Yield()
-			ds.SetValue(c13Key(s.Key), v+1000)
+			ds.SetValue(c13K(s.Key), v+1000)
 		case "y":
 			simrt.Yield()
 		}
@@ -187,6 +216,7 @@ func c13Exec(ds app.DataScope, steps []c13Step) (reads []int) {
 
 func c13Run(inI interface{}, env *Env) *Failure {
 	in := inI.(*c13In)
+	c13KeyKind = in.KeyKind
 	switch in.Shape {
 	case 0:
 		return c13Sequential(in, env)
@@ -203,7 +233,7 @@ func c13Run(inI interface{}, env *Env) *Failure {
 			ds = datascope.NewChild(ds, map[interface{}]interface{}{})
 		}
 		for k := 0; k < c13Keys; k++ {
-			ds.SetValue(c13Key(k), 0) // every key lives in the object under test: no fall-through
+			ds.SetValue(c13K(k), 0) // every key lives in the object under test: no fall-through
 		}
 		var outer app.DataScopeLocker
 		if in.Depth >= 3 {
@@ -301,13 +331,13 @@ func c13Sequential(in *c13In, env *Env) *Failure {
 		for _, s := range op.Steps {
 			switch s.Kind {
 			case "w":
-				ds.SetValue(c13Key(s.Key), s.Val)
+				ds.SetValue(c13K(s.Key), s.Val)
 				model[op.Level][s.Key] = s.Val
 			case "n":
-				ds.SetValue(c13Key(s.Key), nil)
+				ds.SetValue(c13K(s.Key), nil)
 				model[op.Level][s.Key] = 0 // has the key; c13Val reads nil as 0
 			case "r":
-				got := c13Val(ds.Value(c13Key(s.Key)))
+				got := c13Val(ds.Value(c13K(s.Key)))
 				if want := lookup(op.Level, s.Key); got != want {
 					return failf("C13/overlay", fmt.Sprintf("locked=%v", op.Locked), "op %d: Value(k%d) at level %d = %d, model says %d", oi, s.Key, op.Level, got, want)
 				}
@@ -319,7 +349,7 @@ func c13Sequential(in *c13In, env *Env) *Failure {
 		// whole-state comparison: every level, every key; a child's writes never show in a parent
 		for l := 0; l < in.Depth; l++ {
 			for k := 0; k < 3; k++ {
-				if got, want := c13Val(chain[l].Value(c13Key(k))), lookup(l, k); got != want {
+				if got, want := c13Val(chain[l].Value(c13K(k))), lookup(l, k); got != want {
 					return failf("C13/overlay", "state", "after op %d: level %d key %d = %d, model says %d", oi, l, k, got, want)
 				}
 			}
